@@ -233,8 +233,6 @@ def work(chunk):
 def setter_cases():
     out = []
     for cls in ('Derivative', 'Gradient', 'Jacobian', 'Hessdiag'):
-        # (the default step generator is chosen at construction: real-step and complex-step objects differ in it, so
-        # only assignments among the real-step methods are comparable with a freshly built object)
         ms = ['central', 'forward', 'backward']
         for m0 in ms:
             for m1 in ms:
@@ -250,41 +248,38 @@ def setter_cases():
 
 
 def work_setters(chunk):
+    """the admissibility predicates of the configuration IN FORCE at call time, for objects whose method / order / n was
+    assigned after construction"""
     import warnings
     acc = fw.Acc()
     for cls, cfg0, cfg1 in chunk:
         kind = {'Derivative': 'elementwise', 'Jacobian': 'vector'}.get(cls, 'scalarfun')
-        x = make_x('a', 1 if cls == 'Derivative' else 2)
-        traces = []
-        for mode in ('set', 'fresh'):
-            fw.fresh_library_state()
-            rec = Recorder(kind)
-            with warnings.catch_warnings():
-                warnings.simplefilter('ignore')
-                try:
-                    if mode == 'fresh':
-                        obj = build(cls, cfg1[0], cfg1[1], cfg1[2], ('default', {}), rec)
-                    else:
-                        obj = build(cls, cfg0[0], cfg0[1], cfg0[2], ('default', {}), rec)
-                        if cfg1[0] != cfg0[0]:
-                            obj.method = cfg1[0]
-                        if cfg1[2] != cfg0[2]:
-                            obj.order = cfg1[2]
-                        if cfg1[1] != cfg0[1]:
-                            obj.n = cfg1[1]
-                    obj(x)
-                    traces.append([(a.tobytes(), None if b is None else b.tobytes()) for a, b in rec.args])
-                except Exception as e:      # noqa: BLE001
-                    traces.append(('raised', type(e).__name__))
-        same = traces[0] == traces[1]
-        acc.case(('setter', cls, cfg0, cfg1), nontrivial=True, cell='setter/%s' % cls, outcome=same)
-        if not same:
-            acc.violation('C05:%s:%s:evaluation-points-after-attribute-assignment' % (cls, cfg1[0]),
+        dim = 1 if cls == 'Derivative' else 2
+        x = make_x('a', dim)
+        fw.fresh_library_state()
+        rec = Recorder(kind)
+        bad, status = [], 'ok'
+        with warnings.catch_warnings():
+            warnings.simplefilter('ignore')
+            try:
+                obj = build(cls, cfg0[0], cfg0[1], cfg0[2], ('default', {}), rec)
+                if cfg1[0] != cfg0[0]:
+                    obj.method = cfg1[0]
+                if cfg1[2] != cfg0[2]:
+                    obj.order = cfg1[2]
+                if cfg1[1] != cfg0[1]:
+                    obj.n = cfg1[1]
+                obj(x)
+                steps = list(obj.step(x, cfg1[0], obj.n, obj.method_order))
+                hmax = np.max(np.abs(np.array([np.ones(dim) * s for s in steps])), axis=0)
+                bad = check_args(cls, cfg1[0], cfg1[1], x, rec.args, hmax, complex_first_order(cfg1[0], cfg1[1], cfg1[2]))
+            except Exception as e:      # noqa: BLE001
+                status = type(e).__name__
+        acc.case(('setter', cls, cfg0, cfg1), nontrivial=len(rec.args) >= 2, cell='setter/%s' % cls, outcome=(status, not bad))
+        for kind_, detail in bad[:1]:
+            acc.violation('C05:%s:%s:%s:after-attribute-assignment' % (cls, cfg1[0], kind_),
                           dict(kind='setter', cls=cls, built=list(cfg0), assigned=list(cfg1)),
-                          '%s built with (method, n, order) = %r and then assigned %r evaluates f at other points than a '
-                          'freshly built %r object (%s evaluations against %s)'
-                          % (cls, cfg0, cfg1, cfg1, len(traces[0]) if isinstance(traces[0], list) else traces[0],
-                             len(traces[1]) if isinstance(traces[1], list) else traces[1]), rank=1)
+                          '%s built with (method, n, order) = %r and then assigned %r: %s' % (cls, cfg0, cfg1, detail), rank=1)
     fw.fresh_library_state()
     return acc
 
@@ -333,7 +328,7 @@ def replay(case):
     if case.get('kind') == 'setter':
         a = work_setters([(case['cls'], tuple(case['built']), tuple(case['assigned']))])
         bad = [r['detail'] for k, (n, recs) in a.viol.items() for r in recs]
-        return not bad, '%r -> %s' % (case, bad or 'same evaluation points as a freshly built object')
+        return not bad, '%r -> %s' % (case, bad or 'all evaluation points admissible for the assigned configuration')
     cfg = tuple(case['cfg'])
     gen = (case['gen'][0], case['gen'][1])
     c = (cfg, gen, case['dim'], case['x'])
